@@ -965,7 +965,12 @@ fn judge(case: &NetCase, obs: &Obs, end_tasks: &[TaskInfo], out: &mut Outcome, w
                     seq: e.seq,
                 })
                 .collect();
-            let final_ok = writes.last().map(|w| w.ok).unwrap_or(true) && !faulty;
+            // conservation at the end: everything acknowledged is on the wire once the last write
+            // succeeded - in fault-free histories always; after refused sends if the final flush
+            // returned Ok (what was accepted stays buffered until a write succeeds); not through a
+            // queuing front, where "acknowledged" only means queued
+            let final_flush_returned_ok = obs.ops.iter().any(|o| o.op == "final-flush" && matches!(o.res, Res::Unit));
+            let final_ok = writes.last().map(|w| w.ok).unwrap_or(true) && (!faulty || (final_flush_returned_ok && !case.queuing));
             let before = out.violations.len();
             let cons: &[&str] = if faulty { &["C07"] } else { &["C06", "C13"] };
             check_stream(cap, &term, &ms, &writes, final_ok, cons, out);
@@ -1033,7 +1038,19 @@ fn judge(case: &NetCase, obs: &Obs, end_tasks: &[TaskInfo], out: &mut Outcome, w
                 }
                 out.probe("write_during_emit_judged");
                 let m = o.text.as_bytes();
-                if m.len() + 1 > cap || find_sub(&r.payload, m) {
+                if m.len() + 1 > cap {
+                    continue;
+                }
+                if r.payload.split(|b| *b == b'\n').any(|l| l == m) {
+                    // the datagram carries m itself: only an exactly filled buffer may leave at once
+                    if r.payload.len() != cap {
+                        let mut props = vec!["C19"];
+                        if case.tasks.len() > 1 {
+                            props.push("C12");
+                        }
+                        out.violate(&props, "stream.sent-while-room-remained", format!("emit of metric #{} on task {} sent a datagram of {} bytes that carries the metric itself although the {cap}-byte buffer was not full", o.id, t, r.payload.len()));
+                        break 'buf;
+                    }
                     continue;
                 }
                 if r.payload.len() + m.len() + 1 <= cap {
@@ -1118,14 +1135,9 @@ fn judge(case: &NetCase, obs: &Obs, end_tasks: &[TaskInfo], out: &mut Outcome, w
                 }
             }
         }
-        // concurrent readers: each counter is monotone and never ahead of the final value
-        if let Some(Some(fin)) = obs.stats.last().map(|s| s.stats) {
-            for m in &obs.mid_stats {
-                if m.0 > fin.0 || m.1 > fin.1 || m.2 > fin.2 || m.3 > fin.3 {
-                    out.violate(&["C14"], "stats.mid-read-ahead-of-final", format!("a concurrent stats() read {m:?} exceeds the final figures {fin:?}"));
-                    return;
-                }
-            }
+        // (C14 speaks of quiescent moments only: what a read sees in the middle of a send is not judged)
+        if !obs.mid_stats.is_empty() {
+            out.probe("stats_read_mid_run");
         }
         let senders: std::collections::BTreeSet<usize> = obs.ledger.iter().filter_map(|r| r.task).collect();
         if senders.len() > 1 {
